@@ -176,6 +176,26 @@ theorem ridge_not_applied (cols : List (List ℝ)) {c : ℝ} (hc : ¬ Gen.GaussC
     corrModel cols c = preRidge cols :=
   corrModel_noridge cols hc
 
+/-- in both branches of the ridge decision the fitted matrix is positive semi-definite. -/
+theorem corr_psd {cols : List (List ℝ)} {n : ℕ} (h : Rect cols n) (c : ℝ) :
+    (toMat cols.length (corrModel cols c)).PosSemidef := by
+  by_cases hc : Gen.GaussCorr.condThreshold < c
+  · exact (ridge_preserves h hc).2.2.2.1.posSemidef
+  · rw [ridge_not_applied cols hc]; exact pearson_psd h
+
+/-- in both branches every off-diagonal entry of the fitted matrix lies in `[-1, 1]`. -/
+theorem corr_offdiag_range {cols : List (List ℝ)} {n : ℕ} (h : Rect cols n) (c : ℝ) {i j : ℕ}
+    (hi : i < cols.length) (hj : j < cols.length) (hij : i ≠ j) :
+    -1 ≤ entryD 0 (corrModel cols c) i j ∧ entryD 0 (corrModel cols c) i j ≤ 1 := by
+  have hv : entryD 0 (corrModel cols c) i j = (rho (colVec cols n i) (colVec cols n j)).getD 0 := by
+    rw [corrModel_eq_table, entryD_table _ _ hi hj, if_neg hij, pearsonEntry_eq_rho h hi hj,
+      nanToZero1_real]
+    simp
+  rw [hv]
+  cases hr : rho (colVec cols n i) (colVec cols n j) with
+  | none => simp
+  | some v => simpa using rho_range hr
+
 /-- the marginal CDF values are clipped away from 0 and 1 by the generated bounds. -/
 theorem clip_away (u : ℝ) :
     (0 : ℝ) < clip Gen.GaussCorr.clipLo Gen.GaussCorr.clipHi u
